@@ -211,3 +211,8 @@ def run(ctx: common.Ctx):
             ctx.violation(key, f"{fn}{' method' if form == 'method' else ''}({dtype}{list(shape)}, axis={axis}, keepdims={keepdims}, {extra}) {mode}: {kind}: {detail}",
                           {"function": fn, "form": form, "dtype": dtype, "shape": shape, "axis": axis, "keepdims": keepdims,
                            "extra": extra, "mode": mode, "kind": kind, "detail": detail})
+
+    # graph-level tie (B) and operator-reading tie (D) for the integer / boolean reductions
+    # (Props/C10Graph.lean: reduceCore_shape, any_graph_correct, all_graph_correct)
+    from .. import tgraph
+    tgraph.run_reduce(ctx, 300 if quick else 3000)
